@@ -480,3 +480,34 @@ func (a *Asset) NewestAvail(r *Rep, nowMS, astS, atoMS int64) int64 {
 	}
 	return n
 }
+
+// ---------- audio re-segmentation model (C03): frame grid on the absolute audio clock ----------
+
+// GridCeil returns the first multiple of frameDur (audio timescale ats) that is at or after refTime (timescale refTS).
+func GridCeil(refTime, refTS, frameDur, ats uint64) uint64 {
+	// smallest k with k*frameDur*refTS >= refTime*ats  (exact integer arithmetic; values stay far below 2^64 for the driven range
+	// when computed with 128-bit care: use big-free formulation via division first)
+	num := mul128div(refTime, ats, refTS) // floor(refTime*ats/refTS), rem tells exactness
+	q := num.q / frameDur
+	if q*frameDur == num.q && num.r == 0 {
+		return q * frameDur
+	}
+	return (q + 1) * frameDur
+}
+
+type qr struct{ q, r uint64 }
+
+// mul128div computes floor(a*b/c) and whether there is a remainder, without overflow.
+func mul128div(a, b, c uint64) qr {
+	hi, lo := mul64(a, b)
+	q, r := div128(hi, lo, c)
+	return qr{q, r}
+}
+
+// AudioSegTimes returns the expected start and end (audio timescale, relative to AST) of live audio segment n,
+// following the reference (video) segment n.
+func (a *Asset) AudioSegTimes(ar *Rep, n int64) (start, end uint64) {
+	_, vs, ve := a.LiveSeg(a.Ref, n)
+	fd := uint64(ar.SampleDur)
+	return GridCeil(vs, a.Ref.Timescale, fd, ar.Timescale), GridCeil(ve, a.Ref.Timescale, fd, ar.Timescale)
+}
